@@ -5,5 +5,8 @@ CONSTANTS
   InitLen = 4
   Fixed = FALSE
   Ids <- IdsClasses
+  ServeFails = TRUE
+  DeferUnreport = TRUE
+  LockedAdd = TRUE
 INVARIANTS OutcomeOK CountersNonNeg CountersBalanced
 CHECK_DEADLOCK FALSE
